@@ -38,10 +38,22 @@ func (st *concState) counts(onlyDone bool) map[uint32]int {
 }
 
 // takeSnapshot is the snapshotter thread's action (C08).
-func (w *World) takeSnapshot() {
+func (w *World) takeSnapshot(healthy bool) {
 	st := w.conc
 	s := &snapRec{file: NewSimFile(), ack: st.counts(true), applied0: st.counts(false)}
-	if st.or.snapfault {
+	// a Snapshot that starts while another call has its recorder installed is refused (that
+	// is the library's contract for overlapping snapshots); the recorder is claimed right at
+	// the start of the call, before its first yield
+	refused := st.recorderBy != 0
+	if !refused {
+		st.recorderBy = w.tid() + 1
+	}
+	defer func() {
+		if st.recorderBy == w.tid()+1 {
+			st.recorderBy = 0 // (a call that failed while writing the state detaches its recorder itself)
+		}
+	}()
+	if st.or.snapfault && !healthy {
 		for _, f := range w.cs.Faults {
 			switch f.Kind {
 			case "snap-write-call":
@@ -64,6 +76,18 @@ func (w *World) takeSnapshot() {
 		s.err = w.primary.Snapshot(s.file)
 	}()
 	s.applied1 = st.counts(false)
+	if refused != (s.err != nil && s.file.Fired == 0) && s.panicked == nil {
+		if refused {
+			w.fail(violation("snapshot-overlap/not-refused", "a Snapshot that started while another one had its recorder installed returned %v (two snapshots at once share one recorder slot)", s.err))
+		} else if !st.or.snapfault {
+			w.fail(violation("snapshot-error", "Snapshot returned %v while transactions were committing (no other snapshot was recording)", s.err))
+		}
+	}
+	if refused {
+		s.err = fmt.Errorf("refused: %v", s.err)
+		w.stats.probe("snapshot-refused-while-another-is-recording")
+		return
+	}
 	if st.or.snapfault && s.panicked == nil {
 		w.stats.Checks++
 		if s.file.Fired > 0 {
